@@ -57,6 +57,7 @@ type Rec struct {
 	Code int    `json:"code,omitempty"`
 	Aux  string `json:"aux,omitempty"`
 	Req  int    `json:"req,omitempty"` // down.hdr of an upstream response: the request it was produced for
+	Err  bool   `json:"err,omitempty"` // down.*: the scripted sender returned an error from this call
 }
 
 type hist struct {
@@ -276,6 +277,8 @@ func (u *upStream) remoteReset(reason types.StreamResetReason) bool {
 	return true
 }
 
+var errSender = errors.New("scripted sender error")
+
 // downstream: server stream handed to NewStreamDetect
 type downSender struct {
 	stream.BaseStream
@@ -313,6 +316,13 @@ func (d *downSender) AppendHeaders(ctx context.Context, headers api.HeaderMap, e
 			req, _ = strconv.Atoi(v) // the request this response was produced for
 		}
 	}
+	if d.h.spec.senderFails("hdr") {
+		// the stream layer refuses the headers (as the xprotocol server stream does for a map that is not a response frame):
+		// nothing is written, the proxy is not called back
+		d.h.add(Rec{Kind: "down.hdr", End: end, Code: code, Aux: kind, Req: req, Err: true})
+		d.giveUp(end)
+		return errSender
+	}
 	d.h.add(Rec{Kind: "down.hdr", End: end, Code: code, Aux: kind, Req: req})
 	if end {
 		d.BaseStream.DestroyStream() // the server stream is gone once the reply is complete (later resets do not reach the proxy)
@@ -334,6 +344,11 @@ func (d *downSender) AppendData(ctx context.Context, data buffer.IoBuffer, end b
 			owner = "?" + data.String()
 		}
 	}
+	if d.h.spec.senderFails("data") {
+		d.h.add(Rec{Kind: "down.data", End: end, Aux: owner, Err: true})
+		d.giveUp(end)
+		return errSender
+	}
 	d.h.add(Rec{Kind: "down.data", End: end, Aux: owner})
 	if end {
 		d.BaseStream.DestroyStream()
@@ -341,9 +356,23 @@ func (d *downSender) AppendData(ctx context.Context, data buffer.IoBuffer, end b
 	return nil
 }
 func (d *downSender) AppendTrailers(ctx context.Context, trailers api.HeaderMap) error {
+	if d.h.spec.senderFails("trl") {
+		d.h.add(Rec{Kind: "down.trl", Err: true})
+		d.giveUp(true)
+		return errSender
+	}
 	d.h.add(Rec{Kind: "down.trl"})
 	d.BaseStream.DestroyStream()
 	return nil
+}
+
+// a refused call that was the reply's last one: the proxy has handed the whole reply over and will not touch the stream again;
+// the scripted stream layer drops its listeners WITHOUT calling them (same environment assumption as for a complete reply: no
+// per-stream reset is delivered to the proxy after the end-of-stream call - the proxy's stream object may be recycled by then)
+func (d *downSender) giveUp(end bool) {
+	if end {
+		d.BaseStream.DestroyStream()
+	}
 }
 
 // called by the proxy (downStream.resetStream)
